@@ -31,7 +31,7 @@ func TestMain(m *testing.M) {
 		"notifications carry an action with BUFF and are sent only for PDRs whose FAR currently buffers (what the kernel does); Update FAR keeps FAR ID first",
 		"when the same Update FAR carries a new outer-header creation, release towards the old or the new tunnel is accepted",
 		"interleaving between different PDRs of one FAR is not asserted; re-creating a PDR id while its queue is non-empty is not generated",
-		"notification bursts are written in chunks of <= 100 with the listener drained in between, so that the check stays clear of the loop/listener wedge that C18 hunts for")
+		"notification bursts are written while the event loop is idle - in chunks of <= 100 with the listener drained in between, or (half of the large ones) in one go so that the report queue fills - and the listener is drained before the next request, so that the check stays clear of the loop/listener wedge that C18 hunts for")
 	vcore.Main(m)
 }
 
@@ -69,6 +69,7 @@ type Ev struct {
 	NewGNB  int       `json:"new_gnb,omitempty"` // 0: unchanged, else gnb index+1
 	NewTEID uint32    `json:"new_teid,omitempty"`
 	IDLast  bool      `json:"id_last,omitempty"` // updfar: FAR ID IE after the Apply Action IE
+	Whole   bool      `json:"whole,omitempty"`   // burst: written in one go (the listener runs ahead of the idle loop and the report queue fills) instead of chunks of 100
 	Spec    *SessSpec `json:"spec,omitempty"`
 }
 type Case struct {
@@ -94,20 +95,20 @@ type mpdr struct {
 	removed bool
 }
 type msess struct {
-	spec  SessSpec
-	ref   int
-	up    uint64
-	alive bool
-	fars  map[uint32]*mfar
-	pdrs  map[uint16]*mpdr
-	qfi   map[uint32]uint8
-	q     map[uint16][]string
+	spec   SessSpec
+	ref    int
+	up     uint64
+	alive  bool
+	fars   map[uint32]*mfar
+	pdrs   map[uint16]*mpdr
+	qfi    map[uint32]uint8
+	q      map[uint16][]string
 	reused bool
 }
 
 type stats struct {
 	overflowThenRelease, releaseAfterReuse, twoForw bool
-	released, notified                             int
+	released, notified                              int
 }
 
 func hash(p string) string {
@@ -116,6 +117,7 @@ func hash(p string) string {
 }
 
 func run(c Case) (v *vcore.Violation, stt stats) {
+	vcore.Journal(c)
 	f, err := fullstack.NewFull(fullstack.FullOpts{Nodes: 2, Gtpu: true})
 	if err != nil {
 		panic("infrastructure: " + err.Error())
@@ -131,6 +133,10 @@ func run(c Case) (v *vcore.Violation, stt stats) {
 	defer func() {
 		for _, g := range gnbs {
 			g.Conn.Close()
+		}
+		if v != nil && (v.Key == "stuck" || v.Key == "mcast-not-consumed") {
+			// the event loop is blocked for good: such a server cannot be torn down, and nothing else can run beside it
+			vcore.ReportWedged(v, c)
 		}
 		if cerr := f.Close(); cerr != nil && v == nil {
 			v = vcore.Violatef("stop-hang", "%v", cerr)
@@ -246,7 +252,7 @@ func run(c Case) (v *vcore.Violation, stt stats) {
 			sent := 0
 			for sent < ev.N {
 				chunk := ev.N - sent
-				if chunk > 100 {
+				if chunk > 100 && !ev.Whole {
 					chunk = 100
 				}
 				for j := 0; j < chunk; j++ {
@@ -611,6 +617,7 @@ func gen(t *rapid.T) Case {
 			if ev.N > 50 && ev.NOCP {
 				ev.NOCP = rapid.IntRange(0, 3).Draw(t, "keepnocp") == 0
 			}
+			ev.Whole = ev.N > 100 && rapid.Bool().Draw(t, "whole")
 		case "updfar":
 			ev.FAR = uint32(rapid.IntRange(1, 2).Draw(t, "far"))
 			ev.Action = rapid.SampledFrom([]uint16{FORW, FORW, FORW, DROP, BUFF, BUFF | NOCP}).Draw(t, "action")
